@@ -129,7 +129,7 @@ def generate(rs: int, tier: str, index: int) -> dict:
         d2 = ch.sub("swapped").choice([">f8", ">i8", ">u4", ">c16", ">f4", ">i2", ">u8"])
     step: Dict[str, Any] = {"id": 0, "k": kind, "d1": d1, "d2": d2}
     if kind == "ctor":
-        how = ch.choice(["polynomial_dtype", "aspolynomial_dtype", "from_attributes_dtype", "from_attributes_mixed", "dict", "variable", "symbols", "astype", "from_data", "aspolynomial_poly_dtype", "polynomial_list", "aspolynomial_poly_names_dtype", "empty_dict", "raw_mixed_fields"])
+        how = ch.choice(["polynomial_dtype", "aspolynomial_dtype", "from_attributes_dtype", "from_attributes_mixed", "dict", "variable", "symbols", "astype", "from_data", "aspolynomial_poly_dtype", "polynomial_list", "aspolynomial_poly_names_dtype", "empty_dict", "raw_mixed_fields", "dict_mixed"])
         step["value"] = ch.sub("v").below(3)
         if cast_cell:
             how = CASTS[(index // len(DTYPES) ** 2) % len(CASTS)]
@@ -373,6 +373,20 @@ class Runner:
                     return numpoly.reshape(numpoly.polynomial(raw, names=q.names), shape)
 
                 return thunk_raw, Expect(expect_dtype, shape, _strip({key: c.astype(expect_dtype) for key, c in zip(keys, cols)})), how, {"mixed": True}
+            if how == "dict_mixed":
+                # a dictionary whose coefficient arrays differ in type, with a requested dtype: each value is cast on its
+                # own (an int64 beyond 2**53 must not travel through a common float64)
+                mixed = [numpy.dtype(m) for m in step["mixed"]]
+                narrow = d2.kind in "ub" or any(m.kind in "ub" for m in mixed)
+                cols = [numpy.array(numpy.abs(c).astype(mixed[i % 3]) if narrow and c.dtype.kind != "b" else c.astype(mixed[i % 3])) for i, c in enumerate(_cols(p))]
+                if d2.kind in "iu" and d2.itemsize == 8:
+                    for c in cols:
+                        if c.dtype.kind in "iu" and c.dtype.itemsize == 8 and c.size:
+                            c.flat[0] = 2 ** 53 + 1 + step.get("value", 0)
+                dct = {tuple(e): c for e, c in zip(p["exponents"], cols)}
+                keys = [frozenset((n, kk) for n, kk in zip(p["names"], e) if kk) for e in p["exponents"]]
+                return (lambda: numpoly.polynomial(dct, names=tuple(p["names"]), dtype=d2)), \
+                    Expect(d2, tuple(p["shape"]), _strip({key: c.astype(d2) for key, c in zip(keys, cols)})), how, {"mixed": True, "d2": step["d2"]}
             if how == "dict":
                 cols = _cols(p)
                 dct = {tuple(e): c for e, c in zip(p["exponents"], cols)}
